@@ -20,9 +20,23 @@ func (w *verifWorld) newManager() Manager {
 		MaxTaskThroughput: time.Nanosecond, RetryInterval: time.Nanosecond,
 		PollRetriesInterval: time.Hour, WorkqueueMetricsEmitInterval: time.Hour, Testing: true,
 	}
-	m, err := NewManager(cfg, tally.NoopScope, &verifStore{w, w.epoch}, &verifExecutor{w, w.epoch})
-	verif.Assert("manager-starts", err == nil)
-	return m
+	for {
+		w.lock()
+		faults := w.faults
+		w.starting = true // store calls of the start-up recovery may fail (world.go: storeFault)
+		w.unlock()
+		m, err := NewManager(cfg, tally.NoopScope, &verifStore{w, w.epoch}, &verifExecutor{w, w.epoch})
+		w.lock()
+		w.starting = false
+		injected := w.faults > faults
+		w.unlock()
+		if err == nil {
+			return m
+		}
+		// the process did not come up (no goroutine was started): start it again
+		verif.Assert("manager-starts-unless-the-store-failed", injected)
+		verif.Cover("start-up-failed-on-a-store-fault-and-the-process-was-started-again", true)
+	}
 }
 
 func verifPoll(m Manager) {
@@ -108,6 +122,7 @@ func VerifConcurrentRestart() {
 	m.Close()
 	w.lock()
 	w.epoch++
+	w.faultBudget = verif.Bound("startup_store_faults", 1, 2)
 	w.unlock()
 	m = w.newManager()
 	w.checkSafety()
